@@ -46,8 +46,8 @@ def cacheStep (c : Cache) (ops : List String) (impl : String) : Cache × String 
     | .inadmissible => (c, "inadmissible-victim")
   | ["get", key] =>
     match c.get (hexArg key) with
-    | some e => (c, toHex e.val)
-    | none => (c, "none")
+    | some e => (c, toHex e.val ++ " c=111")
+    | none => (c, "none c=000")
   | ["del", key] =>
     let (c', r) := c.delete (hexArg key)
     (c', s!"{match r with | some e => toHex e.key | none => "-"} count={c'.count}")
